@@ -168,6 +168,9 @@ func Reset(cfg *Config, replica string, restartNo int) {
 	codec.OldUpgradeHeight = 0
 	codec.UpgradeFeatureMap = make(map[string]int64)
 	codec.TestMode = 0
+	// a fresh codec: the application flips a sticky "upgrade override" on it at the codec upgrade
+	// height, which a new process would not inherit
+	app.MakeCodec()
 	sdk.InitCtxCache(cfg.CtxCache)
 	sdk.VbCCache = sdk.NewCache(1200)
 	app.GenState = nil
@@ -347,6 +350,12 @@ func BuildGenesis(cfg *Config) app.GenesisState {
 		p.ServicerStakeWeightMultiplier = sdk.NewDecWithPrec(15, 1)
 		p.ServicerStakeWeightCeiling = cfg.StakeMinimum + 9_000_000
 		p.ServicerStakeFloorMultiplierExponent = sdk.NewDecWithPrec(5, 1)
+	} else {
+		// integer weights: reward = multiplier * relays * (floored stake in POKT, capped)
+		p.ServicerStakeFloorMultiplier = 1_000_000
+		p.ServicerStakeWeightMultiplier = sdk.NewDec(1)
+		p.ServicerStakeWeightCeiling = cfg.StakeMinimum + 12_000_000
+		p.ServicerStakeFloorMultiplierExponent = sdk.NewDec(1)
 	}
 	gen[nodesTypes.ModuleName] = cdc.MustMarshalJSON(posGS)
 
